@@ -24,6 +24,7 @@ func runC12(w *World, r *Report, tier string) {
 	r.Rule("R2", "recv defers close(keepaliveQuit) in its entry block; at every start site keepalive and recv get the same channel")
 	r.Rule("R3", "keepalive: the quit case stops the ticker and returns with no Ping reachable; a failed Ping stops the ticker, closes the transport and returns")
 	r.Rule("R5", "event delivery: EventManager.disconnected/updateState/streamError record the state and, when a handler is installed, call it exactly once on every path with an Event carrying the current state (and, for disconnected, the SM state given); SetHandler installs the handler it is given")
+	r.Rule("R6", "closing means closing (shared with C18.R6): every implementation of Transport.Close closes the underlying connection on every path on which there is one — on a transport whose Read only returns when the connection is closed (websocket), this is what ends the receive loop and gets the loss reported after a failed keepalive")
 	r.Rule("R4", "goroutine inventory: every go statement in library code starts one of the session goroutines whose end R1–R3 establish, or a function with no loop / whose every loop passes through a fallible call and leaves when it fails; every blocking channel operation inside library goroutines has a terminating alternative (buffered channel, select with a done/timeout case)")
 
 	fn := w.Func("xmpp.(*Client).recv")
@@ -440,6 +441,7 @@ func c12Goroutines(w *World, r *Report) {
 		})
 	}
 	r.Floor("R4", 6)
+	transportCloseRule(w, r, "R6")
 	// blocking channel operations inside goroutine bodies and the functions they run
 	type chanOp struct {
 		fn   *ssa.Function
